@@ -15,6 +15,10 @@ that drives the unmodified code when the body uses an instrumented copy.
 from dataclasses import dataclass, field
 from typing import Callable, Dict, List, Optional, Tuple
 
+import os as _os
+
+#: root of the tree under test: /repo, or a scratch copy when CHX_REPO is set (used only by my own mutant/seed evaluation)
+REPO = _os.environ.get("CHX_REPO", "/repo").rstrip("/")
 MAXCP = 0x10FFFF
 
 
